@@ -10,7 +10,9 @@ pass the direction test and fall in the lag) and a transcription of the pair loo
 * the pair loop, on samples pre-sorted by first coordinate, enumerates every unordered pair exactly
   once (its pruning test on the *signed* coordinate difference never fires);
 * a pair's contribution is symmetric in the two variables and in the two samples;
-* translating all coordinates changes nothing.
+* translating all coordinates changes nothing;
+* the lag assigned to a pair is characterised exactly (`lag_sound`, `lag_complete`): lag `k` if and
+  only if the distance lies in `[(k−½)dpas, (k+½)dpas)`, within the tolerance, `k < npas`.
 The library is tied to `lagDef` by the correspondence run (pair weights exactly, values to 2⁻³⁶).
 -/
 namespace GstProofs.C12
@@ -85,6 +87,69 @@ theorem var_symm (d : Dir) (iv jv k : Nat) (p : Sample × Sample) :
     split; · rfl
     cases p1.z.getD iv none <;> cases p2.z.getD iv none <;> cases p1.z.getD jv none <;>
       cases p2.z.getD jv none <;> simp [mul_comm]
+
+/-! ### the lag of a pair (`DirParam::getLagRank`, decided on squared distances) -/
+
+/-- tolerance window of lag `k`: `|d − k·dpas| ≤ toldis·dpas`, on squares -/
+def InTol (d : Dir) (d2 : Q) (k : Nat) : Prop :=
+  ((((k : Q) - d.toldis) * d.dpas ≤ 0) ∨ Vario.sq (((k : Q) - d.toldis) * d.dpas) ≤ d2) ∧
+  d2 ≤ Vario.sq (((k : Q) + d.toldis) * d.dpas)
+
+theorem lagRankGo_sound (d : Dir) (d2 : Q) : ∀ (fuel k0 r : Nat), lagRankGo d d2 fuel k0 = some r →
+    k0 ≤ r ∧ d2 < Vario.sq (((r : Q) + 1/2) * d.dpas) ∧
+    (∀ j, k0 ≤ j → j < r → Vario.sq (((j : Q) + 1/2) * d.dpas) ≤ d2) ∧ InTol d d2 r ∧ r < d.npas
+  | 0, _, _, h => by simp [lagRankGo] at h
+  | fuel+1, k0, r, h => by
+    simp only [lagRankGo] at h
+    split at h
+    · rename_i hlt
+      split at h
+      · rename_i hin
+        injection h with h; subst h
+        exact ⟨le_refl _, hlt, fun j h1 h2 => by omega, ⟨hin.1.1, hin.1.2⟩, hin.2⟩
+      · simp at h
+    · rename_i hge
+      obtain ⟨a, b, c, e, f⟩ := lagRankGo_sound d d2 fuel (k0 + 1) r h
+      refine ⟨by omega, b, ?_, e, f⟩
+      intro j h1 h2
+      by_cases hj : j = k0
+      · subst hj; exact not_lt.mp hge
+      · exact c j (by omega) h2
+
+/-- **the lag returned for a pair is the one its distance falls in**: `lagRank d² = k` only if
+`(k − ½)·dpas ≤ dist < (k + ½)·dpas` (stated on squares: every nearer half-lag boundary is below
+`d²`, the next one above), `|dist − k·dpas| ≤ toldis·dpas` and `k < npas` -/
+theorem lag_sound (d : Dir) (d2 : Q) (k : Nat) (h : lagRank d d2 = some k) :
+    d2 < Vario.sq (((k : Q) + 1/2) * d.dpas) ∧ (∀ j, j < k → Vario.sq (((j : Q) + 1/2) * d.dpas) ≤ d2) ∧
+    InTol d d2 k ∧ k < d.npas := by
+  obtain ⟨_, b, c, e, f⟩ := lagRankGo_sound d d2 _ 0 k h
+  exact ⟨b, fun j hj => c j (Nat.zero_le _) hj, e, f⟩
+
+theorem lagRankGo_complete (d : Dir) (d2 : Q) (r : Nat) (hup : d2 < Vario.sq (((r : Q) + 1/2) * d.dpas))
+    (hin : InTol d d2 r) (hr : r < d.npas) : ∀ (fuel k0 : Nat), k0 ≤ r → r < k0 + fuel →
+    (∀ j, k0 ≤ j → j < r → Vario.sq (((j : Q) + 1/2) * d.dpas) ≤ d2) → lagRankGo d d2 fuel k0 = some r
+  | 0, k0, h1, h2, _ => by omega
+  | fuel+1, k0, h1, h2, hlow => by
+    simp only [lagRankGo]
+    by_cases hk : k0 = r
+    · subst hk
+      simp only [hup, if_true]
+      have : (((((k0 : Q) - d.toldis) * d.dpas ≤ 0) ∨ Vario.sq (((k0 : Q) - d.toldis) * d.dpas) ≤ d2) ∧
+          d2 ≤ Vario.sq (((k0 : Q) + d.toldis) * d.dpas)) ∧ k0 < d.npas := ⟨⟨hin.1, hin.2⟩, hr⟩
+      simp [this]
+    · have hlt : ¬ (d2 < Vario.sq (((k0 : Q) + 1/2) * d.dpas)) := not_lt.mpr (hlow k0 (le_refl _) (by omega))
+      simp only [hlt, if_false]
+      exact lagRankGo_complete d d2 r hup hin hr fuel (k0 + 1) (by omega) (by omega)
+        (fun j a b => hlow j (by omega) b)
+
+/-- … and conversely every pair whose distance falls in lag `k < npas` within the tolerance is
+assigned to lag `k` -/
+theorem lag_complete (d : Dir) (d2 : Q) (k : Nat) (hup : d2 < Vario.sq (((k : Q) + 1/2) * d.dpas))
+    (hlow : ∀ j, j < k → Vario.sq (((j : Q) + 1/2) * d.dpas) ≤ d2) (hin : InTol d d2 k) (hk : k < d.npas) :
+    lagRank d d2 = some k := by
+  unfold lagRank
+  exact lagRankGo_complete d d2 k hup hin hk (d.npas + 2) 0 (Nat.zero_le _) (by omega)
+    (fun j _ b => hlow j b)
 
 /-! non-vacuity: three collinear samples -/
 def s3 : List Sample := [⟨[0], [some 1], none, true⟩, ⟨[1], [some 3], none, true⟩, ⟨[2], [some 2], none, true⟩]
